@@ -175,6 +175,9 @@ def physical(P, S_prev, a, S):
     return out
 
 
+OBJECTIVE_HOLDS_ON_PREFIX = True  # the objective is a running quantity: valid after every step of a legal episode
+
+
 def objective(P, trace):
     """Sum of the values of all tiles created by merges (shadow count from the reference slide), which the
     documentation also calls the score."""
@@ -184,6 +187,8 @@ def objective(P, trace):
     score = float(trace[-1].S["score"])
     ret = float(sum(float(e.reward) for e in trace[1:]))
     P.hit("merged_tiles_sum")
+    if int(np.max(trace[-1].S["board"])) >= 12:
+        P.hit("episode_reached_tile_4096_plus")
     # the return must equal both the shadow sum and state.score: hand back whichever disagrees with it
     if abs(ret - shadow) <= 1e-3 and abs(score - shadow) > 1e-3:
         return score
@@ -257,6 +262,27 @@ def synthetic(P, rng, tier):
             out.append(f"rows_move_left_reward: {bad_rew} of {len(rows)} rows of length {L} give another reward; first {first}")
         if bad_can:
             out.append(f"rows_can_move_left_row: {bad_can} of {len(rows)} rows of length {L}: can_move_left_row != (slide changes the row); first {first}")
+    # late-game rows: exponents up to 17 (tile 131072, the largest a 4x4 board can hold), many equal neighbours
+    for L in (3, 4, 6):
+        nbig = 1500 if tier == "quick" else 12000
+        rows = rng.integers(0, 18, size=(nbig, L)).astype(np.int32)
+        dup = rng.random((nbig, L - 1)) < 0.45
+        for j in range(L - 1):
+            rows[:, j + 1] = np.where(dup[:, j], rows[:, j], rows[:, j + 1])
+        rows[rng.random((nbig, L)) < 0.15] = 0
+        new, rew = mv(jnp.asarray(rows))
+        can = np.asarray(cm(jnp.asarray(rows)))
+        new, rew = np.asarray(new), np.asarray(rew)
+        bad, first = 0, None
+        for i, row in enumerate(rows):
+            e, r, _ = ref_row(row.tolist())
+            ok = new[i].tolist() == e and abs(float(rew[i]) - r) <= 1e-6 * max(1.0, r) and bool(can[i]) == (e != row.tolist())
+            bad += not ok
+            if first is None and not ok:
+                first = (row.tolist(), new[i].tolist(), float(rew[i]), bool(can[i]), e, r)
+        P.hit("synthetic_big_rows", len(rows))
+        if bad:
+            out.append(f"rows_big_exponents: {bad} of {len(rows)} random rows of length {L} over exponents 0..17 differ from the reference (row, reward or can_move); first {first}")
     P.rep.exhaustive["C09:Game2048:rows"] = {"lengths": [2, maxlen], "exponents": [0, 6], "rows": total, "functions": ["move_left_row", "can_move_left_row"]}
 
     nb = 60 if tier == "quick" else 400
